@@ -333,12 +333,18 @@ def run(ctx):
                 res.fail("spec", "C01:from_dotbracket:pairs", {"seq": seq, "structure": st},
                          "decoded pairs %r vs BPSEQ pairs %r" % (sorted(dec)[:10], sorted(got)[:10]))
     res.sample({"family": "balanced-db", "structure": dbs[0][1], "opt": douts[0].get("opt")})
+    # glue around the core: faithful writer, BPSEQ / dot-bracket / multi-strand text (harness/corr/c01_extra.py)
+    from corr.c01_extra import run_extra
+    run_extra(ctx, res)
     return res
 
 
 def replay(ctx, data):
     """re-run one stored input through implementation, model and spec predicate"""
     inp = data["input"]
+    from corr.c01_extra import replay_extra
+    if replay_extra(ctx, inp):
+        return
     if "fault" in inp:
         from corr.c13 import real as real_fault
         o = real_fault((inp["seq"], inp["pairs"], inp["cfg"], inp["fault"]))
